@@ -413,7 +413,10 @@ def _final(out, tag, d):
 def _apply(out, tag, d, op, others):
     """One step of an edit history; returns the (possibly new) definition."""
     name, args = op[0], op[1:]
-    if name in ('set_object', 'set_property', 'add_object', 'add_property', 'rename_object', 'rename_property',
+    if name.endswith('_iter'):
+        # the same edit with its names handed over as a one-shot iterator (seeded C17-L: iterators materialised into a set)
+        out.err(tag, getattr(d, name[:-5]), args[0], iter(list(args[1])))
+    elif name in ('set_object', 'set_property', 'add_object', 'add_property', 'rename_object', 'rename_property',
                 'move_object', 'move_property', 'remove_object', 'remove_property',
                 'remove_empty_objects', 'remove_empty_properties'):
         out.err(tag, getattr(d, name), *args)
@@ -630,7 +633,11 @@ FIXED_HISTORIES = [
      ['move_object', 'Whiskey', 0],
      ['move_property', 'uniform', 2],
      ['remove_empty_objects'],
-     ['remove_empty_properties']],
+     ['remove_empty_properties'],
+     ['add_object_iter', 'Xray', ['papa', 'oscar', 'Quebec', 'lima', 'mike']],
+     ['add_property_iter', 'victor', ['Zulu', 'bravo', 'Kilo', 'romeo']],
+     ['set_object_iter', 'Xray', ['lima', 'papa', 'delta-2', 'Oscar-2']],
+     ['set_property_iter', 'victor', ['romeo', 'Zulu', 'Able', 'baker']]],
     [['union', 0, True],
      ['set_object', 'otter', ['golf', 'Hotel', 'Beta', 'social', 'delta', 'aardvark']],
      ['ior', 1],
